@@ -65,7 +65,7 @@ for tagged in (0, 1):
 VARIANTS.append(("aSN", ["-fsanitize=address,undefined", "-fno-sanitize-recover=all", "-fno-omit-frame-pointer", "-D_GLIBCXX_SANITIZE_VECTOR"]))
 VARIANTS.append(("aDN", ["-fsanitize=address,undefined", "-fno-sanitize-recover=all", "-fno-omit-frame-pointer", "-D_GLIBCXX_SANITIZE_VECTOR",
                          "-DGUDHI_COLLAPSE_USE_DENSE_ARRAY"]))
-VAR_DESC = "a = double under ASan+UBSan; d/t = Filtration_value double / index-tagged double; S/D = default / dense neighbour table; N/T = std::sort / tbb::parallel_sort"
+VAR_DESC = "a = double under ASan+UBSan; d/t = Filtration_value double / index-tagged double; S/D = default / dense neighbour table; N/T = std::sort / tbb::parallel_sort (the T builds are release builds: NDEBUG)"
 
 
 # ------------------------------------------------------------------------------------------- graphs
@@ -582,7 +582,7 @@ def check(ctx, replay=None):
     TIER[0] = ctx.tier
     if not getattr(ctx, "skip_proof", False):
         ctx.prove(["Extract_C12.vo"])
-    bins = ctx.build_many([("c12_drv.cpp", tag, fl) for (tag, fl) in VARIANTS])
+    bins = ctx.build_many([("c12_drv.cpp", tag, list(fl) + (["-DNDEBUG"] if tag.endswith("T") else [])) for (tag, fl) in VARIANTS])
     orc = ctx.build_oracle("c12")
     corpus = []
     cdir = os.path.join(core.ROOT, "corpus", "C12")
